@@ -49,8 +49,9 @@ def run(ctx):
         ]
     else:
         configs = [
+            # (Span_thorough.cfg explores the widest bounds with Panics = FALSE: the panic action cannot be taken there)
             {"cfg": "Span_thorough.cfg", "workers": 10, "replay": False,
-             "actions": ACTIONS + TASKS + LAZY + ["Incoming"]},
+             "actions": [a for a in ACTIONS if a != "SPanic"] + TASKS + LAZY + ["Incoming"]},
             {"cfg": "Span_thorough2.cfg", "workers": 10, "replay": False, "actions": ACTIONS + ["Incoming"]},
             {"cfg": "Span_thorough_r1.cfg", "workers": 6, "actions": ACTIONS + TASKS + LAZY + ["Incoming"]},
             {"cfg": "Span_thorough_r2.cfg", "workers": 6, "actions": ACTIONS + ["Incoming"]},
